@@ -118,6 +118,20 @@ func ruleGetRIBBlocks(c *Ctx) {
 			}
 		}
 		if rs == nil {
+			// the loop may sit in a helper spliced into the block: the only loop over a table of the holder
+			nLoops := 0
+			inspectNoFuncLit(ifs.Body, func(n ast.Node) bool {
+				if r, ok := n.(*ast.RangeStmt); ok && tableOfExpr(info, r.X) != "" && rootedAtHolderR(info, r.X) {
+					rs = r
+					nLoops++
+				}
+				return true
+			})
+			if nLoops != 1 {
+				rs = nil
+			}
+		}
+		if rs == nil {
 			c.fail(rule, fi.Name, "block "+guard, c.P.pos(ifs.Pos()), "no loop over a table inside the block")
 			continue
 		}
@@ -148,7 +162,7 @@ func ruleGetRIBBlocks(c *Ctx) {
 		for _, cl := range litsOfType(info, rs.Body, spbPath, "AFTEntry") {
 			emitted++
 			f := compositeFields(cl)
-			if o, p := selectorPath(info, f["NetworkInstance"]); o != recv || strings.Join(p, ".") != "name" {
+			if o, p := selectorPath(info, f["NetworkInstance"]); frameArgRoot(info, fi.Decl, o) != recv || strings.Join(p, ".") != "name" {
 				bad = "the emitted entry is not tagged with the holder's own network-instance name"
 			}
 			el, ok := unAddr(f["Entry"]).(*ast.CompositeLit)
@@ -372,14 +386,24 @@ func ruleDoGetScope(c *Ctx) {
 		return strings.Join(p, ".") == "Name"
 	}
 	strayList := ""
+	// the list and the locals of spliced-in helpers whose value is handed back into it
+	lists := map[types.Object]bool{}
+	if listObj != nil {
+		lists[listObj] = true
+		for _, a := range frameReturnAliases(info, listObj) {
+			if _, isVar := a.(*types.Var); isVar {
+				lists[a] = true
+			}
+		}
+	}
 	ast.Inspect(fi.Decl.Body, func(n ast.Node) bool {
 		as, ok := n.(*ast.AssignStmt)
-		if !ok || len(as.Rhs) != 1 || len(as.Lhs) != 1 || listObj == nil || objOfIdent(info, as.Lhs[0]) != listObj {
+		if !ok || len(as.Rhs) != 1 || len(as.Lhs) != 1 || listObj == nil || !lists[objOfIdent(info, as.Lhs[0])] {
 			return true
 		}
 		switch r := ast.Unparen(as.Rhs[0]).(type) {
 		case *ast.CallExpr:
-			if id, ok := r.Fun.(*ast.Ident); ok && id.Name == "append" && len(r.Args) == 2 && objOfIdent(info, r.Args[0]) == listObj && isReqName(r.Args[1]) {
+			if id, ok := r.Fun.(*ast.Ident); ok && id.Name == "append" && len(r.Args) == 2 && lists[objOfIdent(info, r.Args[0])] && isReqName(r.Args[1]) {
 				okName = true
 				return true
 			}
